@@ -49,6 +49,11 @@ fn value_pool() -> Vec<Value> {
         Value::Int(9007199254740993),
         Value::Float(9007199254740992.0),
         Value::List(vec![Value::Int(1)]),
+        Value::String("m".into()),
+        Value::String("p".into()),
+        Value::String("x".into()),
+        Value::String("zz".into()),
+        Value::String("b".into()),
     ]
 }
 
@@ -61,6 +66,12 @@ fn gen_history(seed: u64, k: usize) -> (Vec<Step>, (String, String), usize) {
     // Every second history stays away from the triggers of the recorded findings (index created
     // first, one label per node, no label changes, no deletions, no floats) so that index
     // maintenance on property updates/removals, compaction and reopen is still explored in depth.
+    // Every fifth history is "heavy": repeated SETs of ~1.5 KB strings on one node make the index
+    // B-tree split its root while an *update* (not a create) is being indexed; lookups for short
+    // values on both sides of the split follow.
+    if k % 5 == 4 {
+        return gen_heavy_history(&mut rng);
+    }
     let clean = k % 2 == 1;
     let pool: Vec<Value> = if clean { value_pool().into_iter().filter(|v| !matches!(v, Value::Float(_))).collect() } else { value_pool() };
     let idx_label = rng.pick(&LABELS[..2]).to_string(); // A or B
@@ -117,9 +128,39 @@ fn gen_history(seed: u64, k: usize) -> (Vec<Step>, (String, String), usize) {
     (steps, (idx_label, idx_prop), index_at)
 }
 
+fn gen_heavy_history(rng: &mut Rng) -> (Vec<Step>, (String, String), usize) {
+    let l = "A";
+    let p = "p";
+    let mut steps = vec![Step::CreateIndex(l.into(), p.into())];
+    let mut uid = 0i64;
+    let mut create = |steps: &mut Vec<Step>, v: &str, uid: &mut i64| {
+        *uid += 1;
+        steps.push(stmt(format!("CREATE (:{l} {{uid: {uid}, {p}: '{v}'}})"), Info::Create { uid: *uid, labels: vec![l.to_string()] }));
+    };
+    for v in ["a", "m", "x"] {
+        create(&mut steps, v, &mut uid);
+    }
+    let target = 1 + rng.below(3) as i64;
+    let n_sets = 7 + rng.below(8);
+    for i in 0..n_sets {
+        let long = format!("{}{i}", ["k", "n", "q", "b"][rng.below(4)].repeat(1400 + rng.below(300)));
+        steps.push(stmt(format!("MATCH (n:{l}) WHERE n.uid = {target} SET n.{p} = '{long}'"), Info::SetProp { label: l.into(), prop: p.into(), modulus: 1_000_000, rem: target }));
+        if rng.chance(1, 6) {
+            steps.push(Step::Compact);
+        }
+    }
+    for v in ["m", "p", "m", "a", "zz", "b"] {
+        create(&mut steps, v, &mut uid);
+        if rng.chance(1, 5) {
+            steps.push(Step::Reopen);
+        }
+    }
+    (steps, (l.into(), p.into()), 0)
+}
+
 fn step_json(s: &Step) -> serde_json::Value {
     match s {
-        Step::Stmt(q, _) => json!(q),
+        Step::Stmt(q, _) => json!(if q.len() > 160 { format!("{} ... ({} characters)", &q[..120], q.len()) } else { q.clone() }),
         Step::CreateIndex(l, p) => json!(format!("create_index({l}, {p})")),
         Step::Compact => json!("compact"),
         Step::Reopen => json!("reopen"),
